@@ -73,7 +73,7 @@ static void dft_stage_fn(stage_t * p, fifo_t * output_fifo)
   dft_filter_t const * f = &s->dft_filter[p->dft_filter_num];
   int const overlap = f->num_taps - 1;
 
-  if (p->at.integer + p->L * num_in >= f->dft_length) {
+  if (p->at.integer + (int64_t)p->L * num_in >= f->dft_length) {
     fn_t const * const RDFT_CB = p->rdft_cb;
     size_t const sizeof_real = sizeof(char) << LOG2_SIZEOF_REAL(p->core_flags);
     div_t divd = div(f->dft_length - overlap - p->at.integer + p->L - 1, p->L);
